@@ -1,11 +1,12 @@
 """C09 — the layered state store behaves like a transactional, versioned map."""
-import json, os
+import concurrent.futures, json, os
 import common
 from common import Broken, sh
 
 ASSUMPTIONS = [
     "the IAVL root hash is a deterministic function of the sequence of Set/Remove/SaveVersion calls (not modelled; "
-    "the harness compares root hashes between twin stores instead)",
+    "the harness compares root hashes between twin real stores instead: the store vs a store run on strip(ops), and the store vs a "
+    "bare tree fed the model's tree calls in the model's order)",
     "LevelDB durability and crashes inside SaveVersion are outside the model (tm-db MemDB is used by the harness; "
     "Reopen = a new ChainState over the same database)",
     "stored values are non-empty byte strings (the generators never write an empty value)",
@@ -22,9 +23,10 @@ def evaluate(ctx, vh, args):
         raise Broken("C09 harness run failed", out[-3000:])
     rep = json.load(open(os.path.join(out_dir, "c09_report.json")))
     cases = json.load(open(os.path.join(out_dir, "c09_cases.json")))
-    mm, sv, ng = [], [], 0
-    for f in rep["files"]:
-        ok, cout = common.coqc_file(f, cwd=out_dir)
+    mm, sv, ng, sm, tm = [], [], 0, [], []
+    with concurrent.futures.ThreadPoolExecutor(max_workers=8) as ex:
+        results = list(ex.map(lambda f: common.coqc_file(f, cwd=out_dir), rep["files"]))
+    for ok, cout in results:
         if not ok:
             raise Broken("the model could not be evaluated on the recorded traces (cases file does not check)", cout[-3000:])
         a = common.parse_print(cout, "MM")
@@ -32,6 +34,9 @@ def evaluate(ctx, vh, args):
         b = common.parse_print(cout, "SV")
         sv += [(b[i], b[i + 1], b[i + 2]) for i in range(0, len(b), 3)]
         ng += common.parse_print(cout, "NG")[0]
+        sm += common.parse_print(cout, "SM")
+        tm += common.parse_print(cout, "TM")
+    rep["strip_mismatches"], rep["tlog_mismatches"] = sm, tm
     return rep, cases, mm, sv, ng
 
 
@@ -49,16 +54,33 @@ def judge(ctx, rep, cases, mm, sv):
                       cls=cl, how="./check replay <this file>"))
         if ctx.violations >= 3:
             break
-    for tf in rep.get("twin_failures") or []:
+    # shortest failing sequences first: the replay should be as small as the run found
+    twin = sorted(rep.get("twin_failures") or [], key=lambda tf: (len(tf["ops"]), tf["case"]))
+    for tf in twin[:3]:
         found_input = True
         ctx.violation("twin_%d" % tf["case"], dict(tf, kind="root-hash-depends-on-reads-or-discarded-sessions",
-                      rot=cases[tf["case"]]["Rot"], ops=cases[tf["case"]]["Ops"]))
-        if ctx.violations >= 5:
-            break
-    if mm and not found_input:
+                      what="two real stores: the sequence `ops` and the same sequence without its reads and without the sessions that "
+                           "are not committed (`stripped`) give different root hashes at commit number first_differing_commit (0-based), "
+                           "while the surviving writes are the same",
+                      twin_failures_in_this_run=len(twin), family=cases[tf["case"]].get("Family"),
+                      rot=cases[tf["case"]]["Rot"], ops=cases[tf["case"]]["Ops"], how="./check replay <this file>"))
+    if found_input:
+        return True
+    if mm:
         ci, step = mm[0]
         raise Broken("correspondence Store.v vs storage.State broke (model and implementation answer differently)",
                      json.dumps(case_payload(cases[ci], step)))
+    if rep.get("strip_mismatches") or rep.get("tlog_mismatches"):
+        raise Broken("the harness' twin inputs are not the model's: strip(ops) differs in cases %s, tree_calls differs in cases %s"
+                     % (rep["strip_mismatches"][:5], rep["tlog_mismatches"][:5]))
+    tree = sorted(rep.get("tree_twin_failures") or [], key=lambda tf: (len(tf["ops"]), tf["case"]))
+    if tree:
+        tf = tree[0]
+        raise Broken("correspondence Store.v vs storage.State broke: the store's root hash is not the root hash of a bare real tree fed "
+                     "the model's tree calls in the model's order (first-write order of the surviving writes); %d cases" % len(tree),
+                     json.dumps({"rot": cases[tf["case"]]["Rot"], "ops": cases[tf["case"]]["Ops"], "tree_calls": cases[tf["case"]].get("TLog"),
+                                 "hashes_store": tf["hashes_full"], "hashes_tree_twin": tf["hashes_stripped"],
+                                 "first_differing_commit": tf["first_differing_commit"]}))
     return found_input
 
 
@@ -80,8 +102,22 @@ def run(ctx):
     cov = ctx.coverage
     cov.update({
         "evaluations": rep["cases"], "distinct_nontrivial": rep["distinct_cases"],
-        "rule": "exhaustive sequences up to the enumeration length over 2 keys x {a,b,marker} and 12 operation kinds, plus seeded "
-                "random sequences (4 gas modes, 6 rotation settings); distinct = distinct operation sequences",
+        "rule": "exhaustive sequences up to the enumeration length over 2 keys x {a,b,marker} and 12 operation kinds; the exhaustive "
+                "write-order sweep (0/1/2 keys already in the tree x 6 orders of 3 new keys in a committed session x an uncommitted "
+                "session touching none/one/two of them, set or delete, discarded or replaced = 666 schedules); seeded block-shaped "
+                "histories (per block 3..6 keys not yet in the tree plus old ones, 2..5 sessions writing random sub-permutations, "
+                "50% committed / 32% discarded / 18% left open, reads interleaved, 2..8 blocks, no gas / huge limit, reopen / fresh "
+                "between blocks); seeded uniform random sequences (4 gas modes, 6 rotation settings); distinct = distinct operation sequences",
+        "families": rep.get("families"),
+        "write_order_distribution": rep.get("write_order_distribution"),
+        "write_order_distribution_legend": "measured over all cases with a tree twin: NewLeaves = leaves a commit adds to the tree; "
+                "FreshKeysWritten = distinct keys not in the tree written in a block (incl. uncommitted sessions); "
+                "DiscardThenCommitBlocks = blocks where a key first touched by an uncommitted session is written by a later committed "
+                "session; OrderSensitiveBlocks = ... after that session first wrote another new key (a stale order index would change "
+                "the order of the tree calls); OrderSensitiveGe3 = ... and the commit adds >= 3 leaves (the tree shape can differ)",
+        "tree_twin_runs": rep["tree_twin_runs"], "tree_twin_commits_compared": rep["tree_twin_commits_compared"],
+        "tree_twin_failures": len(rep.get("tree_twin_failures") or []),
+        "strip_mismatches": len(rep.get("strip_mismatches") or []), "tlog_mismatches": len(rep.get("tlog_mismatches") or []),
         "traces_validated_against_impl": rep["cases"], "steps": rep["steps"],
         "op_histogram": rep["op_histogram"], "obs_histogram": rep["obs_histogram"],
         "guarded_cases": ng, "model_mismatches": len(mm), "spec_disagreements": len(sv),
@@ -90,7 +126,12 @@ def run(ctx):
         "twin_failures": len(rep.get("twin_failures") or []),
         "samples": rep["samples"],
         "explanation": "theorems of props/C09.v re-checked; Store.v evaluated by vm_compute on every recorded trace of the real "
-                       "storage.State (model_mismatches must be 0); spec monitor = StoreSpec.v on the same traces; twin stores compare root hashes",
+                       "storage.State (model_mismatches must be 0); spec monitor = StoreSpec.v on the same traces; twin (a): a second real store "
+                       "runs the sequence without reads and uncommitted sessions (checked by Coq to be StoreCheck.strip of the sequence, the "
+                       "function of theorem C09_discarded_sessions_and_reads_invisible) and the root hashes after every commit are compared; "
+                       "twin (b): a bare real ChainState is fed the tree calls of the model in the model's order (checked by Coq to be "
+                       "tree_calls = the ghost log wlog) and must produce the same root hashes, which ties the ORDER in which a committed "
+                       "session's keys reach the block cache and the tree to the code",
     })
     judge(ctx, rep, cases, mm, sv)
     if broken is not None and ctx.violations == 0:
@@ -104,6 +145,10 @@ def replay(ctx, rp):
         raise Broken("model does not build", log[-2000:])
     tmp = os.path.join(ctx.scratch, "one.json")
     json.dump([{"Rot": rp["rot"], "Ops": rp["ops"]}], open(tmp, "w"))
-    rep, cases, mm, sv, ng = evaluate(ctx, vh, ["-n", "0", "-enum", "0", "-corpus", tmp])
-    print("model_mismatches", mm, "spec_disagreements (case, step, class)", sv, "twin_failures", len(rep.get("twin_failures") or []))
+    rep, cases, mm, sv, ng = evaluate(ctx, vh, ["-n", "0", "-enum", "0", "-sweep=false", "-corpus", tmp])
+    print("model_mismatches", mm, "spec_disagreements (case, step, class)", sv, "twin_failures", len(rep.get("twin_failures") or []),
+          "tree_twin_failures", len(rep.get("tree_twin_failures") or []))
+    for tf in rep.get("twin_failures") or []:
+        print("root hashes of the sequence      ", tf["hashes_full"])
+        print("root hashes of the stripped twin ", tf["hashes_stripped"])
     judge(ctx, rep, cases, mm, sv)
